@@ -50,8 +50,8 @@ impl Property for C11 {
     }
     fn plan(&self, suite: SuiteId, tier: Tier) -> Vec<(u32, u32)> {
         let per = match (tier, suite.slow()) {
-            (Tier::Quick, false) => 25,
-            (Tier::Quick, true) => 5,
+            (Tier::Quick, false) => 100,
+            (Tier::Quick, true) => 15,
             (Tier::Thorough, false) => 500,
             (Tier::Thorough, true) => 80,
         };
